@@ -60,6 +60,41 @@ fn main() {
             let stalls = runs.iter().filter(|r| r.iter().any(|e| e["ev"] == "stall" || e["ev"] == "panic")).count();
             json!({"runs": runs.len(), "events": n, "stalls_or_panics": stalls})
         }
+        // sched <schedules-file (TLC output)> <seed> <out.ndjson> : one run of a fixed base scenario per enumerated fault schedule
+        "sched" => {
+            let seed: u64 = args[2].parse().unwrap();
+            let mut scenarios = Vec::new();
+            for line in std::fs::read_to_string(&args[1]).unwrap().lines() {
+                let line = line.trim();
+                if !line.starts_with("\"[") { continue; }
+                let inner: String = serde_json::from_str(line).unwrap();
+                let faults: Vec<Value> = serde_json::from_str(&inner).unwrap();
+                let mut sc = gen::scenario("enum", seed.wrapping_mul(1000).wrapping_add(scenarios.len() as u64 % 4));
+                for f in faults {
+                    sc.net.schedule.push((f["dir"].as_str().unwrap().to_string(), f["idx"].as_u64().unwrap(), f["act"].as_str().unwrap().to_string()));
+                }
+                scenarios.push(sc);
+            }
+            let threads = 14usize.min(scenarios.len().max(1));
+            let next = std::sync::atomic::AtomicUsize::new(0);
+            let results = std::sync::Mutex::new(Vec::new());
+            std::thread::scope(|s| {
+                for _ in 0..threads {
+                    s.spawn(|| loop {
+                        let i = next.fetch_add(1, std::sync::atomic::Ordering::Relaxed);
+                        if i >= scenarios.len() { break; }
+                        let ev = run::run(&scenarios[i], run::Hooks::for_scenario(&scenarios[i]));
+                        results.lock().unwrap().push((i, ev));
+                    });
+                }
+            });
+            let mut results = results.into_inner().unwrap();
+            results.sort_by_key(|(i, _)| *i);
+            let runs: Vec<Vec<Value>> = results.into_iter().map(|(_, e)| e).collect();
+            let n = write_events(&args[3], &runs);
+            let stalls = runs.iter().filter(|r| r.iter().any(|e| e["ev"] == "stall" || e["ev"] == "panic")).count();
+            json!({"runs": runs.len(), "events": n, "stalls_or_panics": stalls})
+        }
         // ackmgr-run <seed> <count> <out.ndjson>
         "ackmgr-run" => ackmgr::run(&args[1..]),
         // one <scenario.json> <out.ndjson>
